@@ -1,5 +1,6 @@
 import Proofs.Effects
 import Proofs.EffectsFull
+import Proofs.EffectsTranslated
 import BycycleModel.EffectPrograms
 /-!
 # C15 — analysis functions are pure: no input mutation, no call-history dependence
@@ -38,6 +39,29 @@ theorem C15_frame_full (f : Fn) (hf : f ∈ pureFns) (fuel : Nat) (oracle : List
 theorem C15_sound_full (prog : List Fn) (summ : Summ) (hw : wellSummarised prog summ = true)
     (f : Fn) (hf : f ∈ prog) (fuel : Nat) (oracle : List Bool) (o : Nat) (ho : o ∈ f.runFull prog summ fuel oracle) :
     o ∈ summ.get f.name := sound_full prog summ hw f hf fuel oracle o ho
+
+/-! ## The TRANSLATED program
+
+`BycycleModel/Generated/EffectsTranslated.lean` is regenerated on every run by `harness/efftrans.py` from the source of
+every top-level function of bycycle's analysis modules (statement-by-statement translation; two-level object model:
+a variable and its contents). -/
+
+/-- the translated program is well summarised: every translated body, analysed with the summaries of its callees,
+writes at most what its own summary says (kernel evaluation on the generated program); the functions C15 lists were
+all found in the source and have the EMPTY summary. -/
+theorem C15_translated_static :
+    wellSummarised T.fns T.summ = true ∧
+    T.pure.all (fun n => (T.summ.get n).isEmpty && (lookupFn T.fns n).isSome) = true :=
+  ⟨T.fns_wellSummarised, T.pure_listed⟩
+
+/-- … hence, for every resolution of the branches and every step budget, the translated body of each listed function,
+with calls among bycycle's own functions EXECUTED on the shared object store, writes neither an argument object nor
+anything inside one. -/
+theorem C15_translated_frame (n : String) (hn : n ∈ T.pure) (f : Fn) (hf : lookupFn T.fns n = some f)
+    (fuel : Nat) (oracle : List Bool) : f.runFull T.fns T.summ fuel oracle = [] := T.frame n hn f hf fuel oracle
+
+/-- non-vacuity: the list is not empty and `compute_features` is on it and was translated. -/
+example : "compute_features" ∈ T.pure ∧ (lookupFn T.fns "compute_features").isSome = true := by decide +kernel
 
 /-- non-vacuity: without the defensive copy of `burst_kwargs` the analysis reports the write
 (this is the defect repaired by commit c9c7490). -/
